@@ -10,7 +10,7 @@ sed -i "s#path = \"/repo\"#path = \"$R\"#" harness/Cargo.toml
 export PM_REPO="$R"
 ./check --setup >/dev/null 2>&1
 echo "# baseline (unchanged tree)"
-for p in $PROPS; do
+for p in $([ -n "$SEED_DIAG" ] && echo "" || echo "$PROPS"); do
   ./check $p --tier quick > out_$p.txt 2>&1; echo "base $p rc=$? $(grep -c VIOLATION out_$p.txt)"
 done
 for d in seeded/*/; do
@@ -18,7 +18,9 @@ for d in seeded/*/; do
   if [ -n "$SEED_FILTER" ] && ! echo "$sid" | grep -Eq "$SEED_FILTER"; then continue; fi
   git -C "$R" apply "$HERE/${d}patch.diff" || { echo "$sid: patch does not apply"; continue; }
   line="$sid:"
-  for p in $PROPS; do
+  # SEED_DIAG=1: only the check of the property the change was written against
+  if [ -n "$SEED_DIAG" ]; then RUNP="${sid%%_*}"; else RUNP="$PROPS"; fi
+  for p in $RUNP; do
     ./check $p --tier quick > out_$p.txt 2>&1
     if grep -q "^VIOLATION" out_$p.txt; then
       if grep -q "no-failing-input-found" out_$p.txt; then line="$line $p(nofi)"; else line="$line $p"; fi
